@@ -34,17 +34,11 @@ pub fn overlaps(g: &GroupRec) -> Vec<Violation> {
     v
 }
 
-fn parent_lid(lid: &str) -> Option<&str> {
-    lid.rfind('.').map(|i| &lid[..i])
-}
-
-/// For every script execution: the building redo process must not unlock the
-/// target's byte of .redo/locks before it has reaped the script and written
-/// the result to the database.
-pub fn unlock_order(g: &GroupRec) -> Vec<Violation> {
-    let mut v = Vec::new();
-    // per redo process: which lock byte belongs to which forked job
+/// For every forked job (child lid) the byte of .redo/locks its parent redo
+/// process took for it, inferred from the parent's own fcntl and fork calls.
+pub fn job_lock_bytes(g: &GroupRec) -> BTreeMap<String, String> {
     let mut job_fid: BTreeMap<String, String> = BTreeMap::new();
+    // per redo process: which lock byte belongs to which forked job
     {
         let mut held: BTreeMap<&str, Vec<String>> = BTreeMap::new();
         let mut nchild: BTreeMap<&str, u32> = BTreeMap::new();
@@ -92,6 +86,19 @@ pub fn unlock_order(g: &GroupRec) -> Vec<Violation> {
             }
         }
     }
+    job_fid
+}
+
+pub fn parent_lid(lid: &str) -> Option<&str> {
+    lid.rfind('.').map(|i| &lid[..i])
+}
+
+/// For every script execution: the building redo process must not unlock the
+/// target's byte of .redo/locks before it has reaped the script and written
+/// the result to the database.
+pub fn unlock_order(g: &GroupRec) -> Vec<Violation> {
+    let mut v = Vec::new();
+    let job_fid = job_lock_bytes(g);
     for r in do_runs(g) {
         let p = match parent_lid(&r.lid) {
             Some(p) => p,
